@@ -51,8 +51,54 @@ def build(prog, into=None):
         netdesc._NUMBER_TYPE[0] = None
 
 
+def _same_point(a, b):
+    return abs(a[0] - b[0]) < 1e-9 and abs(a[1] - b[1]) < 1e-9
+
+
+def chain_program(rng):
+    """a series loop drawn the usual way: one symbol after the other around a rectangle, each starting where the previous one ended
+    (implicit placement), named nodes dropped on junctions on the way, the ground symbol added last on the starting point"""
+    a, b = rng.choice([1, 2]), rng.choice([1, 2])
+    x0, y0 = rng.choice([0, 1, 2]), rng.choice([0, 1])
+    path = [(x0, y0)]
+    for (dx, dy), n in (((0, 1), a), ((1, 0), b), ((0, -1), a), ((-1, 0), b)):
+        for _ in range(n):
+            path.append((path[-1][0] + dx, path[-1][1] + dy))
+    nseg = len(path) - 1
+    kinds = ['Resistor', 'Resistor', 'Conductance', 'Impedance', 'Line', 'Line', 'Capacitor', 'Inductance']
+    w = float(f'{10 ** rng.uniform(1, 3):.3g}')
+    symbols = []
+    names = iter(['R1', 'R2', 'R3', 'G1', 'Z1', 'C1', 'L1', 'Rx', 'R9', 'R10', 'Ra', 'Rb'])
+    src_kind = rng.choice(['dc', 'ac'])
+    n_passive = 0
+    for k in range(nseg):
+        seg = {'p': list(path[k]), 'q': list(path[k + 1])}
+        if k == 0:
+            if src_kind == 'dc':
+                symbols.append({'sym': 'VoltageSource', 'name': 'Vq', 'reverse': rng.random() < 0.5, 'args': {'V': float(f'{10 ** rng.uniform(0, 2):.3g}')}, **seg})
+            else:
+                symbols.append({'sym': 'ACVoltageSource', 'name': 'Vq', 'reverse': rng.random() < 0.5,
+                                'args': {'V': float(f'{10 ** rng.uniform(0, 2):.3g}'), 'w': w, 'phi': rng.choice([0.0, 0.7, -1.2]), 'deg': False, 'sin': False}, **seg})
+            continue
+        kind = rng.choice(kinds) if not (k == nseg - 1 and n_passive == 0) else 'Resistor'
+        if kind in ('Capacitor', 'Inductance') and src_kind == 'dc':
+            kind = 'Resistor'
+        if kind == 'Line':
+            symbols.append({'sym': 'Line', **seg})
+        else:
+            n_passive += 1
+            v = float(f'{10 ** rng.uniform(0, 3):.3g}')
+            args = {'Resistor': {'R': v}, 'Conductance': {'G': 1 / v}, 'Impedance': {'Z': [v, -v / 2]}, 'Capacitor': {'C': 1 / (w * v)}, 'Inductance': {'L': v / w}}[kind]
+            symbols.append({'sym': kind, 'name': next(names), 'reverse': False, 'args': args, **seg})
+        if k < nseg - 1 and rng.random() < 0.4:
+            symbols.append({'sym': rng.choice(['Node', 'Node', 'LabelNode']), 'name': f'n{k}', 'at': list(path[k + 1])})
+    symbols.append({'sym': 'Ground', 'at': list(path[0])})
+    return {'unit': rng.choice([3, 7, 2.5]), 'step': rng.choice([1.5, 3.0, 2.0]), 'offset': [0.0, 0.0], 'rot': 0, 'symbols': symbols, 'chain': True}, src_kind, w
+
+
 def _build(prog, d, elm, placed):
     from ..netdesc import typed
+    here = None
     with d:
         for s in prog['symbols']:
             cls = getattr(elm, s['sym'])
@@ -63,6 +109,8 @@ def _build(prog, d, elm, placed):
                 e = cls()
             elif s['sym'] in ('LabelNode',):
                 e = cls(name=s['name'], id_loc=s.get('loc', 'N'))
+            elif s['sym'] == 'Node':
+                e = cls(name=s['name'])                 # a named node without a visible label
             elif s['sym'] == 'Ground':
                 e = cls(name=s['name']) if 'name' in s else cls()
             elif s['sym'] == 'LabeledLine':
@@ -71,11 +119,22 @@ def _build(prog, d, elm, placed):
                 e = cls(name=s['name'], **args)
             else:
                 e = cls(name=s['name'], reverse=s.get('reverse', False), **args)
-            if 'at' in s:
+            if prog.get('chain') and here is not None and _same_point(phys(prog, s.get('at', s.get('p'))), here):
+                # chained placement, the usual way of drawing: the symbol starts where the previous one ended, two-terminal symbols
+                # get a direction and a length, one-terminal symbols are simply added
+                if 'at' not in s:
+                    (x0, y0), (x1, y1) = phys(prog, s['p']), phys(prog, s['q'])
+                    dx, dy = x1 - x0, y1 - y0
+                    if abs(dx) > 1e-9 and abs(dy) > 1e-9:
+                        e = e.endpoints((x0, y0), (x1, y1))
+                    else:
+                        e = getattr(e, 'right' if dx > 1e-9 else 'left' if dx < -1e-9 else 'up' if dy > 1e-9 else 'down')(math.hypot(dx, dy))
+            elif 'at' in s:
                 e = e.at(phys(prog, s['at']))
             else:
                 e = e.endpoints(phys(prog, s['p']), phys(prog, s['q']))
             d += e
+            here = phys(prog, s['q']) if 'q' in s else phys(prog, s['at'])
             placed.append((s, e))
     d._vmon_placed = placed
     return d
@@ -130,7 +189,7 @@ def intended_netlist(prog):
     for s in prog['symbols']:
         if s['sym'] == 'Line':
             continue
-        if s['sym'] == 'LabelNode':
+        if s['sym'] in ('LabelNode', 'Node'):
             names[cls_of(s['at'])] = s['name']
             continue
         if s['sym'] == 'Ground':
@@ -224,7 +283,8 @@ def embed(rng, cdesc, grid=6, labels=None, ground=True, sym_of=None):
         symbols.append({'sym': 'Ground', 'at': list(rng.choice(own[g[0]['nodes'][0]]))})
     for n, name in (labels or {}).items():
         if n in own and not (g and ground and g[0]['nodes'][0] == n):
-            symbols.append({'sym': 'LabelNode', 'name': name, 'at': list(rng.choice(own[n]))})
+            # the node's name is given by a labelled dot or (one in three) by the plain Node symbol that has no visible label
+            symbols.append({'sym': 'Node' if (len(name) + len(symbols)) % 3 == 0 else 'LabelNode', 'name': name, 'at': list(rng.choice(own[n]))})
     rng.shuffle(symbols)
     return {'unit': rng.choice([3, 7, 2.5]), 'step': rng.choice([1.5, 3.0, 2.0]), 'offset': [0.0, 0.0], 'rot': 0, 'symbols': symbols}
 
